@@ -384,6 +384,10 @@ class WordLockRules(LockModel):
                 for e in p.events:
                     if e['kind'] == 'call' and e.get('record') == self.rec_name:
                         callees.add(e['callee'])
+            if not callees and any(self.word_events(p, d[0]) for p in self.paths(d[0])['paths']):
+                # the release write is performed by the guard's destructor / move assignment themselves
+                self.release[g] = None
+                continue
             if len(callees) != 1:
                 raise AnalysisBroken('%s::%s::~: expected exactly one release function, found %s' % (self.cls, g, sorted(callees)))
             self.release[g] = callees.pop()
@@ -427,9 +431,17 @@ class WordLockRules(LockModel):
         R = self.roles
         for mode, name in (('S', 'LockS'), ('SIX', 'LockSIX'), ('X', 'LockX')):
             R[self.method(self.rec_name, name)['key']] = ('acquire', mode)
-        for g, mode in (('SGuard', 'S'), ('SIXGuard', 'SIX'), ('XGuard', 'X')):
-            R[self.release[g]] = ('release', mode)
-        if 'CompositeGuard' in self.guards and self.release['CompositeGuard'] != self.release['SGuard']:
+        for g, mode in (('SGuard', 'S'), ('SIXGuard', 'SIX'), ('XGuard', 'X'), ('CompositeGuard', 'S')):
+            if g not in self.guards:
+                continue
+            if self.release[g] is None:
+                for f in self.fns.values():
+                    if f.get('record') == self.guards[g]['name'] and (f['kind'] == 'dtor' or f.get('move_assign')):
+                        R[f['key']] = ('release_inl', (mode, g))
+            elif g != 'CompositeGuard':
+                R[self.release[g]] = ('release', mode)
+        if 'CompositeGuard' in self.guards and self.release['CompositeGuard'] is not None and self.release['SGuard'] is not None \
+                and self.release['CompositeGuard'] != self.release['SGuard']:
             self.sink.bad('C13.REL', '%s::CompositeGuard releases through %s, SGuard through %s'
                           % (self.cls, self.release['CompositeGuard'], self.release['SGuard']))
         R[self.method(self.guards['SIXGuard']['name'], 'UpgradeToX')['key']] = ('upgrade', 'X')
@@ -569,6 +581,8 @@ class WordLockRules(LockModel):
         sink = self.sink
         for key, fn in sorted(self.fns.items()):
             role = self.roles.get(key)
+            if role is None and self.eng.inline_helper(fn):
+                continue      # a helper: analysed in the context of its callers
             res = self.paths(fn)
             paths = []
             for p in res['paths']:
@@ -903,6 +917,35 @@ class WordLockRules(LockModel):
                 self.sink.bad('C02.HANDOFF', '%s exactly one flag-clearing write per path' % short(fn['name']),
                               '%s:%s' % (fn['file'], fn['line']), 'found %d' % len(rows))
 
+    def role_release_inl(self, fn, mg, paths, res):
+        """a guard destructor / move assignment that performs the release write itself: on paths where the guard owns
+        the grant exactly one REL row on the guard's lock, on the others none"""
+        mode, g = mg
+        own = self.own_field[g]
+        out = []
+        for p in paths:
+            rows, other = self.rows_of(fn, p)
+            t = self.truth(S('this->' + own, 8), p)
+            if t is None:
+                t = self.truth(S('this->' + own), p)
+            if t is None:
+                if rows:
+                    self.sink.bad('C01.ROWS', '%s [ownership not tested]' % short(fn['name']), loc_of(rows[0]),
+                                  'the lock word is written on a path that does not test the ownership field')
+                continue
+            if not t:
+                self.expect_rows(fn, p, rows, other, [], 'an empty guard')
+                continue
+            if self.expect_rows(fn, p, rows, other, ['REL:' + mode], 'owning guard (release %s)' % mode):
+                self.sink.ok('C02.HANDOFF', '%s exactly one flag-clearing write per path' % short(fn['name']), loc_of(rows[0]), '')
+                self.spec_check('REL:' + mode, fn, p, rows[0])
+                self.rel_order(fn, p, rows[0])
+                out.append((p, rows[0]))
+            else:
+                self.sink.bad('C02.HANDOFF', '%s exactly one flag-clearing write per path' % short(fn['name']),
+                              '%s:%s' % (fn['file'], fn['line']), 'found %d' % len(rows))
+        return out
+
     # ---- call sites
     def call_sites(self, callee_key):
         out = []
@@ -919,6 +962,8 @@ class WordLockRules(LockModel):
         that mode, with the ownership field's lock as receiver"""
         for g, rel in self.release.items():
             grec = self.guards[g]['name']
+            if rel is None:
+                continue     # inline release: the writes are role rows of the destructor / move assignment (C01.WHO covers the rest)
             for f, p, e in self.call_sites(rel):
                 key = '%s called from %s' % (short(self.facts.functions[rel]['name']) if rel in self.facts.functions else rel, short(f['name']))
                 ok_fn = f.get('record') == grec and (f['kind'] == 'dtor' or f.get('move_assign'))
